@@ -24,7 +24,7 @@ where
     let f = self.predicate_f.clone();
 
     Observable::<Item>::create(move |s| {
-      let enable = Arc::new(RwLock::new(false));
+      let skipping = Arc::new(RwLock::new(true));
 
       let f = f.clone();
 
@@ -35,14 +35,14 @@ where
 
       source.inner_subscribe(sctl.new_observer(
         move |_, x: Item| {
-          if *enable.read().unwrap() {
-            sctl_next.sink_next(x);
-          } else {
+          let skipping_now = *skipping.read().unwrap();
+          if skipping_now {
             if f.call(x.clone()) {
-              sctl_next.sink_next(x);
-              *enable.write().unwrap() = true;
+              return;
             }
+            *skipping.write().unwrap() = false;
           }
+          sctl_next.sink_next(x);
         },
         move |_, e| {
           sctl_error.sink_error(e);
